@@ -9,17 +9,17 @@ Core Lean only; proved for the regenerated table in `LLRP.Props.C02.layout_wf`.
 namespace LLRP
 
 /-- `lo` = first free bit (0 = MSB) of the byte shared with the preceding packed fields (0 when none) -/
-def fieldsWF : List Field → Nat → Bool
+def layoutFieldsWF : List Field → Nat → Bool
   | [], _ => true
   | f :: fs, lo =>
     match f.kind with
     | .scalar size bits bit part signed _ =>
-      if bits = 8 then !part && fieldsWF fs 0
+      if bits = 8 then !part && layoutFieldsWF fs 0
       else size == 1 && !signed && decide (lo ≤ bit) && decide (1 ≤ bits) && decide (bit + bits ≤ 8) &&
-        fieldsWF fs (if part then bit + bits else 0)
-    | _ => fieldsWF fs 0
+        layoutFieldsWF fs (if part then bit + bits else 0)
+    | _ => layoutFieldsWF fs 0
 
-def Container.layoutWF (c : Container) : Bool := fieldsWF c.fields 0
+def Container.layoutWF (c : Container) : Bool := layoutFieldsWF c.fields 0
 
 /-- every container of the table packs its bit fields without overlap -/
 def layoutWF (S : Schema) : Bool := S.all Container.layoutWF
